@@ -94,7 +94,11 @@ func Verify(a wallet.Address, state *State, sig wallet.Sig) (bool, error) {
 // NewAsset returns a variable of type Asset, which can be used
 // for unmarshalling an asset from its binary representation.
 func NewAsset(id wallet.BackendID) Asset {
-	return backend[id].NewAsset()
+	b, ok := backend[id]
+	if !ok {
+		return nil // No backend with this id.
+	}
+	return b.NewAsset()
 }
 
 // NewAppID returns an object of type AppID, which can be used for
